@@ -1,5 +1,5 @@
 INIT Init
 NEXT Next
-CONSTANTS Dump = TRUE Size = "thorough"
+CONSTANTS Dump = TRUE Lite = FALSE Size = "thorough"
 INVARIANTS Inv DumpOK
 CHECK_DEADLOCK FALSE
